@@ -2017,9 +2017,9 @@ func (r stack) traverse(indices ...int) (slice any, ok, done bool) {
 				// values. We'll go as deep as possible, provided each nesting
 				// instance is a Stack/Stack alias, or Condition/Condition alias
 				// containing a Stack/Stack alias value.
-				if slice, ok, done = r.traverseAssertionHandler(instance, i, indices...); !done {
-					continue
-				}
+				// a failed descent must not be resumed with the
+				// next index on this (the wrong) stack.
+				slice, ok, done = r.traverseAssertionHandler(instance, i, indices...)
 			}
 			break
 		}
